@@ -46,7 +46,7 @@ def _direct(ctx, current, mon):
         rng, hostile, spec, t, v, strains, fill, calc = gen_case(ctx, i, reuse=reuse)
         if reuse is not None:
             hostile = (hostile or "generic") + "+grid-of-previous-case"
-        prev = (spec.v0, t, v, spec.weights, strains)
+        prev = (spec.v0, t, v, spec.weights, strains, spec.nq, spec.natoms)
         # heat capacity: positive fields over many decades; one class with a non-positive patch (not judged there)
         cvk = i % 4
         cv = calc.qha_calculator.volume_base.heat_capacity
